@@ -235,6 +235,7 @@ class Machine:
         self.cur = None                    # node being interpreted (for the finding site)
         self.frames = []                   # functions being inlined
         self.nsym = 0
+        self.words = {}                    # two-storage members: the `_size` words of this and of the other vector
         from .. import gen
         self.trivial = prog.meta.get('elem') in gen.TRIV_COPY
 
@@ -456,6 +457,9 @@ class Interp:
                 return vals[0]
             return TOP
         if k == 'mem':
+            w = self.word(n, fr)
+            if w is not None:
+                return ('int', dict(self.m.words[w]))
             self.ev(n.get('base'), fr)
             return TOP
         if k == 'idx':
@@ -469,6 +473,18 @@ class Interp:
         for a in n.get('args', []) or []:
             self.ev(a, fr)
         return TOP
+
+    def word(self, n, fr):
+        """'this' / 'other' if n designates the `_size` word of this vector / of the other vector (two-storage members), else None."""
+        n = A.strip(n)
+        if not self.m.words or not isinstance(n, dict) or n.get('k') != 'mem' or n.get('name') != '_size' or not n.get('field'):
+            return None
+        kind, r = A.root(n.get('base'), {})
+        if kind == 'this':
+            return 'this'
+        if kind == 'param' and fr.env.get(('p', r.get('idx'))) == ('othervec',):
+            return 'other'
+        return None
 
     def moved_from(self, v):
         """The value of slot v was moved out (by a constructor): the slot stays alive with an unspecified value."""
@@ -525,6 +541,14 @@ class Interp:
                 else:
                     v = TOP
             fr.env[kk] = v
+            return v
+        w = self.word(lhs, fr)
+        if w is not None:
+            v = self.ev(rhs, fr)
+            if v[0] != 'int' or op != '=':
+                raise Unknown('size word assigned a value the interpreter does not follow')
+            self.no_probe('store to a size word')
+            self.m.words[w] = dict(v[1])
             return v
         src = self.ev(rhs, fr)
         dst = self.ev(lhs, fr)
@@ -784,6 +808,32 @@ class Interp:
                     return ('src', {'D': 1})
                 if sn == 'size':
                     return ('int', {'D': 1})
+        if m.words:
+            if sn == 'exchange' and len(args) == 2 and self.word(args[0], fr):
+                w = self.word(args[0], fr)
+                oldv = ('int', dict(m.words[w]))
+                nv = self.ev(args[1], fr)
+                if nv[0] != 'int':
+                    raise Unknown('exchange of a size word with a value the interpreter does not follow')
+                m.words[w] = dict(nv[1])
+                return oldv
+            if sn == 'swap' and len(args) == 2 and self.word(args[0], fr) and self.word(args[1], fr):
+                a, b = self.word(args[0], fr), self.word(args[1], fr)
+                m.words[a], m.words[b] = m.words[b], m.words[a]
+                return TOP
+            if n.get('method') and not args and n.get('obj') is not None and self.ev(n.get('obj'), fr) == ('othervec',):
+                if sn in BEGIN:
+                    return ('ptr', dict(Y_))
+                if sn == 'size':
+                    return ('int', dict(m.words['other']))
+                if sn in END:
+                    return ('ptr', ladd(Y_, m.words['other']))
+            if on_this and sn in BEGIN and not args:
+                return ('ptr', {})
+            if on_this and sn == 'size' and not args:
+                return ('int', dict(m.words['this']))
+            if on_this and sn in END and not args:
+                return ('ptr', dict(m.words['this']))
         prim = self.primitive(n, nm, sn, args, fr)
         if prim is not NotImplemented:
             return prim
@@ -1275,6 +1325,8 @@ def helper_spec(f):
         return 'h_swap_deep', ['ptrX', 'cntX', 'ptrY', 'cntY']
     if nm == 'amc::vec::move_n' and len(ps) == 4:
         return 'h_move_n', ['ptrY', 'cntY', 'ptrX', 'cntX']
+    if f.get('clsq') == 'amc::vec::StaticVectorBase' and short(nm) in ('swap_impl', 'move_construct', 'move_assign') and ps and 'StaticVectorBase' in ps[0]['t']:
+        return 'm_' + short(nm), ['othervec'] + ['ignored'] * (len(ps) - 1)
     return None
 
 
@@ -1327,6 +1379,10 @@ def expected(kind, m):
     if kind == 'h_swap_deep':
         # the first storage receives the CY elements of the second, the second the CX elements of the first
         return [(Z, CY, old(lneg(Y_))), (CY, Y_, RAW), (Y_, ladd(Y_, CX), old(Y_))], None
+    if kind == 'm_swap_impl':
+        return [(Z, CY, old(lneg(Y_))), (CY, Y_, RAW), (Y_, ladd(Y_, CX), old(Y_))], None
+    if kind in ('m_move_construct', 'm_move_assign'):
+        return [(Z, CY, old(lneg(Y_))), (CY, Y_, RAW)], None
     if kind == 'h_move_n':
         # destination (first storage) holds the CY source elements, everything else - the surplus destination elements, the sources - is gone
         return [(Z, CY, old(lneg(Y_))), (CY, Y_, RAW)], None
@@ -1334,6 +1390,9 @@ def expected(kind, m):
 
 
 SPEC_TEXT = {
+    'm_swap_impl': 'each vector holds exactly the elements the other had, in order, and its size',
+    'm_move_construct': 'this holds exactly the elements the other had, in order, and its size; the other is empty',
+    'm_move_assign': 'this holds exactly the elements the other had, in order, and its size; its former elements are destroyed; the other is empty',
     'h_swap_deep': 'the first range holds exactly the count2 elements of the second in order, the second exactly the count1 elements of the first, nothing else alive',
     'h_move_n': 'the destination holds exactly the n source elements in order; surplus destination elements and all sources destroyed',
     'acc_end': 'begin() + size()', 'acc_rbegin': 'reverse iterator of end()', 'acc_rend': 'reverse iterator of begin()', 'acc_data': 'begin()',
@@ -1370,6 +1429,13 @@ def same_content(m, a, b):
 def check_post(m, kind):
     exp, size = expected(kind, m)
     if size is None:
+        if m.words:
+            CX, CY = {'CX': 1}, {'CY': 1}
+            want = {'this': CY, 'other': CX if kind == 'm_swap_impl' else {}}
+            for w in ('this', 'other'):
+                if not m.entails_eq(m.words[w], want[w]):
+                    raise Violation('on return the size of %s is %s; expected %s (CX / CY: the sizes of this / the other vector on entry)'
+                                    % ('this vector' if w == 'this' else 'the other vector', fmt(m.words[w]), fmt(want[w])), None)
         last = exp[-1][1]
         for lo, hi, c in exp:
             for a, b, got in m.pieces(lo, hi):
@@ -1456,6 +1522,15 @@ def explore(prog, f, E, kind, roles, limit=4000):
                     m.cons = [CX, CY, ladd(ladd(Y_, ladd(CX, CY), -1), lconst(-1))]
                     m.bounds, m.cont = [{}, dict(CX), dict(Y_), ladd(Y_, CY)], [old(), RAW, old(), RAW]
                     m.size = {}
+            elif r == 'othervec':
+                CX, CY = {'CX': 1}, {'CY': 1}
+                fr.env[('p', i)] = ('othervec',)
+                m.cons = [CX, CY, ladd(ladd(Y_, ladd(CX, CY), -1), lconst(-1))]
+                if kind == 'm_move_construct':
+                    m.cons.append(lneg(CX))             # the vector under construction is empty
+                m.bounds, m.cont = [{}, dict(CX), dict(Y_), ladd(Y_, CY)], [old(), RAW, old(), RAW]
+                m.size = {}
+                m.words = {'this': dict(CX), 'other': dict(CY)}
             elif r == 'index':
                 fr.env[('p', i)] = ('int', {'I': 1})
                 m.cons.append({'I': 1})
@@ -1532,6 +1607,6 @@ def seg_layout(progs):
                 msg, node, where, cons = bad
                 rr.add(Finding('SEG-LAYOUT', key, prog.site(f, node) if isinstance(node, dict) and node.get('l') and not where else f['loc'],
                                '%s (%s)%s: %s - on the path where %s.  %s: %s' % (short(f['name']), kind, (' in ' + ' > '.join(where)) if where else '', msg,
-                                                                              ', '.join(cons) or 'no condition', 'contract' if kind.startswith('h_') else 'std::vector', SPEC_TEXT[kind]),
+                                                                              ', '.join(cons) or 'no condition', 'contract' if kind.startswith(('h_', 'm_')) else 'std::vector', SPEC_TEXT[kind]),
                                where=f['pname'], unit=prog.uname))
     return rr
